@@ -229,7 +229,7 @@ class Check(core.PropertyCheck):
     MODEL = "ReqUrl"
     MON = "Mon_ReqUrl"
     REQUIRED_WITNESSES = ("seturl_dns", "seturl_idn", "seturl_ipv4", "seturl_ipv6", "seturl_with_host_header", "reassign_dns",
-                          "reassign_ipv4", "sethost_with_host_header", "sethost_with_authority_h1", "sethost_with_authority_h2",
+                          "reassign_ipv4", "reassign_ipv6", "sethost_with_host_header", "sethost_with_authority_h1", "sethost_with_authority_h2",
                           "setport_with_host_header", "setport_with_authority_h1", "setport_with_authority_h2",
                           "setport_to_default")
     REQUIRED_ACTIONS = ("NewReq", "SetUrl", "Reassign", "SetHost", "SetPort")
@@ -248,17 +248,18 @@ class Check(core.PropertyCheck):
         hc = {n: c for n, (c, _s) in HOSTS.items()}
         canon = {f: c for f, (c, _s) in PATHS.items()}
         stored = {f: STORED.get(f, c) for f, c in canon.items()}
-        urls = {("http", "h1", "plain", "none", "root"), ("https", "h1", "plain", "default", "deep"),
-                ("http", "h2", "upper", "alt", "query"), ("https", "h2", "plain", "cross", "empty"),
-                ("http", "h1", "plain", "cross", "emptyq"), ("http", "idn1", "alabel", "none", "frag"),
-                ("https", "idn1", "ulabel", "alt", "root"), ("http", "v4", "plain", "alt", "params"),
-                ("http", "v6", "bracket", "none", "root"), ("https", "v6", "bracket", "alt", "qonly"),
-                ("http", "h2", "plain", "default", "dslash"), ("https", "h1", "plain", "none", "pct"), ("http", "h2", "plain", "alt", "semi")}
+        urls = {("http", "h1", "plain", "none", "root"), ("http", "h2", "upper", "alt", "query"),
+                ("https", "h2", "plain", "cross", "empty"), ("http", "h1", "plain", "cross", "emptyq"),
+                ("http", "idn1", "alabel", "none", "frag"), ("https", "idn1", "ulabel", "alt", "root"),
+                ("http", "v4", "plain", "alt", "params"), ("http", "v6", "bracket", "none", "root"),
+                ("https", "v6", "bracket", "alt", "qonly"), ("http", "h2", "plain", "alt", "semi")}
+        more = {("https", "h1", "plain", "default", "deep"), ("http", "h2", "plain", "default", "dslash"),
+                ("https", "h1", "plain", "none", "pct")}
         hosts = {"h1", "idn1", "v6"}
         ports = {80, 443, 8080}
         shapes = {(v, a, b) for v in ("h1", "h2") for a in (False, True) for b in (False, True)}
         if tier != "quick":
-            urls |= {(s, h, f, p, pf) for s in ("http", "https") for (h, f) in (("h1", "plain"), ("idn1", "alabel"), ("v6", "bracket"))
+            urls |= more | {(s, h, f, p, pf) for s in ("http", "https") for (h, f) in (("h1", "plain"), ("idn1", "alabel"), ("v6", "bracket"))
                      for p in ("none", "alt") for pf in ("plainp", "query")}
             hosts |= {"h2", "v4"}
         return {"HC": hc, "Canon": canon, "Stored": stored, "Urls": frozenset(urls), "HostEdits": frozenset(hosts), "PortEdits": frozenset(ports),
@@ -296,7 +297,7 @@ class Check(core.PropertyCheck):
     def scenarios(self, ctx, models):
         g = models[0].graph
         if ctx.quick:  # every behaviour with two edits, a sample of those with three
-            behs = g.all_paths(3) + g.random_walks(ctx.rng, 2500, 6)
+            behs = g.all_paths(3) + g.random_walks(ctx.rng, 800, 6)
         else:
             behs = g.edge_cover(ctx.rng, max_len=8, tail=0) + getattr(self, "_sim", [])
         seen = set()
@@ -313,7 +314,7 @@ class Check(core.PropertyCheck):
                 seen.add(key)
                 yield core.Scenario(sc, predicted=core.predicted_events(b), source="model")
         rng = random.Random(ctx.seed * 15485863 + 33)
-        for _ in range(2500 if ctx.quick else 15000):
+        for _ in range(1200 if ctx.quick else 15000):
             yield core.Scenario(random_scenario(rng), source="random")
 
     def execute(self, sc):
